@@ -9,6 +9,8 @@
 //! (`VIOLATION property=<id> replay=<path>`), 2 could not decide.
 
 mod arena;
+mod c07;
+mod c15;
 mod consume;
 mod exec;
 mod gen;
